@@ -129,7 +129,9 @@ def V2.migrateF (ft : Fault) : V2 → Nat → Bool → List Slot → V2 × List 
   | st, off, failed, s :: ss =>
     let (st1, tr, out) := st.stepF (ft.shift off) (.gen s)
     match out with
-    | .crash => (st1, tr, .crash)
+    | .crash =>
+      -- (the keys not reached consume their identities all the same: the bundle was prepared for all of them)
+      ({ st1 with count := ss.foldl (fun cnt s' => upd cnt s' (cnt s' + 1)) st1.count }, tr, .crash)
     | o =>
       let (st2, tr2, out2) := V2.migrateF ft st1 (off + tr.length) (failed || o == .err) ss
       (st2, tr ++ tr2, out2)
